@@ -31,13 +31,13 @@ SHAPES_Q = [
     [(280, 1), (11, 13), (1, 8)],       # 269 boundary, reverse order, value length 13
     [(65535, 0), (0, 1), (269, 12)],
     [(35, 5), (11, 1)],                 # Proxy-Uri: implicit Hop-Limit on requests
-    [(60, 4), (14, 14), (14, 1)],       # Max-Age twice (second refused), length 14
+    [(60, 4), (14, 4), (14, 1)],        # Max-Age twice (second may be refused)
     [(11, 12), (11, 13), (11, 14)],
     [(3, 1), (7, 2), (15, 1)],
 ]
 SHAPES_T = [
-    [(11, 268)], [(11, 269)], [(11, 270)],
-    [(20, 269), (8, 255), (20, 13)],
+    [(2049, 268)], [(2049, 269)], [(2049, 270)],
+    [(2051, 269), (8, 255), (20, 13)],
     [(537, 1), (268, 2), (1, 3)],
     [(538, 0), (269, 0), (0, 0)],
     [(281, 1), (12, 1), (282, 1)],
@@ -48,6 +48,7 @@ SHAPES_T = [
     [(6, 3), (23, 3), (27, 3)],
     [(4, 8), (4, 1), (1, 0)],
     [(65000, 14), (300, 14), (13, 14)],
+    [(2052, 14), (2052, 12), (2052, 13)],
 ]
 
 
@@ -71,10 +72,12 @@ def jobs():
                   desc="coap_opt_encode size/refusal for every delta, length, maxlen<=70000",
                   bounds={"delta": "0..65535", "length": "0..65804", "maxlen": "0..70000"}))
     for pn, pv in PROTOS.items():
-        js.append(Job("L2-msg-header@%s" % pn, "C01/c01.c", "c01_l2_msg_header", UNITS, extra_src=EXTRA, unit_defines=UD,
-                      defines=["PROTO=%d" % pv], unwind=7,
-                      desc="coap_pdu_encode_header == reference and parse_header_size/parse_size/parse_header invert it (%s)" % pn,
-                      bounds={"tkl": "0..65804", "body": "0..8MiB+256", "proto": pn}))
+        forms = [("", 0, 8 * 1024 * 1024 + 256)] if pn != "tcp" else [("-len0", 0, 12), ("-len8", 13, 268), ("-len16", 269, 65804), ("-len32", 65805, 8 * 1024 * 1024 + 256)]
+        for fn, lo, hi in forms:
+            js.append(Job("L2-msg-header@%s%s" % (pn, fn), "C01/c01.c", "c01_l2_msg_header", UNITS, extra_src=EXTRA, unit_defines=UD,
+                          defines=["PROTO=%d" % pv, "BODY_LO=%d" % lo, "BODY_HI=%d" % hi], unwind=7, timeout=900, group="L2-msg-header",
+                          desc="coap_pdu_encode_header == reference and parse_header_size/parse_size/parse_header invert it (%s, body %d..%d)" % (pn, lo, hi),
+                          bounds={"tkl": "0..65804", "body": "%d..%d" % (lo, hi), "proto": pn}))
     for tkl in [0, 1, 8, 12, 13, 14, 268, 269, 270, 65804]:
         js.append(Job("L2t-add-token@%d" % tkl, "C01/c01.c", "c01_l2t_add_token", UNITS, extra_src=EXTRA, unit_defines=UD,
                       defines=["TKL=%d" % tkl], unwind=3, tier="quick" if tkl <= 270 else "thorough", group="L2t-add-token",
@@ -86,6 +89,7 @@ def jobs():
         return Job(name, "C01/c01.c", "c01_b1_roundtrip", UNITS, extra_src=EXTRA, unit_defines=UD,
                    defines=["PROTO=%d" % pv, "TKL=%d" % tkl, "PL=%d" % pl] + shape_defs(shape) + list(extra),
                    unwind=12, tier=tier, group="B1-roundtrip",
+                   flags=["--max-field-sensitivity-array-size", "300" if sum(l for _, l in shape) + tkl + pl < 200 else "1400"],
                    desc="build(%s, token %d, payload %d) -> encode(%s) -> ref_decode and coap_pdu_parse -> same message" % (shape, tkl, pl, proto),
                    bounds={"shape": shape, "proto": proto, "tkl": tkl, "payload": pl}, timeout=600)
     combos_q = [("udp", 0, 0), ("udp", 8, 1), ("tcp", 1, 3), ("ws", 13, 1)]
@@ -93,20 +97,22 @@ def jobs():
         pn, tkl, pl = combos_q[i % len(combos_q)]
         js.append(b1(sh, pn, tkl, pl, "quick"))
     # proxy shape once as request and once as response
-    js.append(b1([(35, 5), (11, 1)], "udp", 1, 0, "quick", ["CODE_REQUEST"]))
-    js.append(b1([(35, 5), (11, 1)], "tcp", 0, 1, "quick", ["CODE_RESPONSE"]))
+    js.append(b1([(35, 5), (11, 1)], "udp", 1, 0, "quick", ["CODE=1"]))      # GET: implicit Hop-Limit
+    js.append(b1([(39, 4), (3, 2), (16, 1)], "tcp", 0, 1, "quick", ["CODE=2"]))  # POST: Hop-Limit added explicitly later -> repeat
+    js.append(b1([(11, 1), (15, 2)], "ws", 8, 1, "quick", ["CODE=3"]))
     for sh in SHAPES_Q + SHAPES_T:
         for (pn, tkl, pl) in [("udp", 0, 0), ("udp", 8, 1), ("udp", 13, 3), ("tcp", 1, 3), ("tcp", 13, 0), ("ws", 13, 1), ("ws", 0, 3), ("tcp", 8, 1)]:
             j = b1(sh, pn, tkl, pl, "thorough")
             if not any(x.name == j.name for x in js):
                 js.append(j)
     # B1r: max_size exhaustion
-    for (n1, l1, n2, l2, ms, tkl, refuse) in [(11, 3, 15, 4, 12, 2, False), (11, 3, 15, 4, 11, 2, True), (11, 3, 300, 1, 9, 2, True),
+    for (n1, l1, n2, l2, ms, tkl, refuse) in [(11, 3, 15, 4, 11, 2, False), (11, 3, 15, 4, 10, 2, True), (11, 3, 300, 1, 9, 2, True),
                                              (11, 3, 300, 1, 10, 2, False), (1, 8, 1, 8, 17, 0, True), (1, 8, 1, 8, 18, 0, False)]:
         js.append(Job("B1r-space@%d.%d_%d.%d-max%d" % (n1, l1, n2, l2, ms), "C01/c01.c", "c01_b1_refuse_space", UNITS,
                       extra_src=EXTRA, unit_defines=UD, group="B1r-space",
                       defines=["TKL=%d" % tkl, "NUM1=%d" % n1, "LEN1=%d" % l1, "NUM2=%d" % n2, "LEN2=%d" % l2, "MAXSIZE=%d" % ms]
                               + (["WIT_REFUSE"] if refuse else []),
+                      flags=["--max-field-sensitivity-array-size", "300"],
                       unwind=12, desc="second option %s when max_size=%d: message unchanged on refusal" % ("refused" if refuse else "fits", ms),
                       bounds={"max_size": ms}))
     return js
